@@ -81,7 +81,7 @@ def run_c18(v):
     if n_cases == 0:
         raise lib.ToolError("MC_Collapse printed no CASE lines")
     s1 = _drive(v, "collapse", "cases", {"C18"}, ["--cases", cases, "--max-cases", 150 if quick else 1500])
-    s2 = _drive(v, "collapse", "random", {"C18"}, ["--scenarios", 10 if quick else 150, "--requests", 40 if quick else 80])
+    s2 = _drive(v, "collapse", "random", {"C18"}, ["--scenarios", 10 if quick else 600, "--requests", 40 if quick else 80])
     v.coverage.update({
         "states": mc["distinct"], "transitions": mc["states"],
         "traces_validated_against_impl": s1["scenarios"] + s2["scenarios"],
@@ -124,7 +124,7 @@ def run_c19(v):
     r = lib.tlc_mc("MC_Rescore.tla", _cfg("MC_Rescore_asbuilt_run.cfg", MC_RESCORE.format(hits=5, asbuilt="TRUE")),
                    timeout=1200, coverage=False, workers=4)
     lib.expect_mc_violation(r, "MC_Rescore as-built sort window (S19a)", {"TailOk"})
-    s = _drive(v, "rescore", "random", {"C19"}, ["--scenarios", 20 if quick else 200, "--requests", 40 if quick else 80])
+    s = _drive(v, "rescore", "random", {"C19"}, ["--scenarios", 20 if quick else 1000, "--requests", 40 if quick else 80])
     v.coverage.update({
         "states": mc["distinct"], "transitions": mc["states"],
         "traces_validated_against_impl": s["scenarios"], "requests_judged": s["requests"],
@@ -170,7 +170,7 @@ def run_c21(v):
     if n_cases == 0:
         raise lib.ToolError("MC_Highlight printed no CASE lines")
     s1 = _drive(v, "highlight", "cases", {"C21"}, ["--cases", cases, "--max-cases", 100 if quick else 1500])
-    s2 = _drive(v, "highlight", "random", {"C21"}, ["--scenarios", 8 if quick else 80, "--requests", 25 if quick else 50])
+    s2 = _drive(v, "highlight", "random", {"C21"}, ["--scenarios", 8 if quick else 400, "--requests", 25 if quick else 50])
     v.coverage.update({
         "states": mc["distinct"], "transitions": mc["states"],
         "traces_validated_against_impl": s1["scenarios"] + s2["scenarios"],
@@ -209,7 +209,7 @@ def run_c22(v):
     r = lib.tlc_mc("MC_Suggest.tla", _cfg("MC_Suggest_firstseg_run.cfg", MC_SUGGEST.format(variant="firstseg", ndocs=2)),
                    timeout=1200, coverage=False, workers=4)
     lib.expect_mc_violation(r, "MC_Suggest variant firstseg", {"LayoutIndependent", "DfIsCount"})
-    s = _drive(v, "suggest", "random", {"C22"}, ["--scenarios", 10 if quick else 80, "--requests", 30 if quick else 60])
+    s = _drive(v, "suggest", "random", {"C22"}, ["--scenarios", 10 if quick else 400, "--requests", 30 if quick else 60])
     v.coverage.update({
         "states": mc["distinct"], "transitions": mc["states"],
         "traces_validated_against_impl": s["scenarios"], "requests_judged": s["requests"],
